@@ -403,10 +403,32 @@ def rule_accounting(ctx, r):
                 if st[0] == "fld" and st[2] in ("next_in", "next_out"):
                     fieldname = st[2]
             return fieldname, closure_kind(clo[1]) if clo[0] == "closure" else None, dflt
+        def direct(ptrv, cntv, fieldname):
+            """explicit form (match / if let on the Option): both values come from the same Some payload of `fieldname`, or are null / 0"""
+            def strip(t):
+                while t and t[0] == "cast":
+                    t = t[1]
+                return t
+            pv, cv = strip(ptrv), strip(cntv)
+            if pv[0] in ("call", "pure") and str(pv[1]).split("::")[-1] in ("null", "null_mut") and is_const(cv) and const_val(cv) == 0:
+                return True
+            if pv[0] == "call" and pv[1].endswith(("::as_ptr", "::as_mut_ptr")) and cv[0] == "len":
+                def payload(t):
+                    return [st for st in paths.subterms(t) if st and st[0] in ("field", "fld") and "as Some" in str(st[2])]
+                pp, cp = payload(pv), payload(cv)
+                def base(t):
+                    # the Option the payload was taken from, without epochs
+                    return pstr(t[1]) if t[0] == "fld" else tstr(t[1])
+                if pp and cp and base(pp[0]) == base(cp[0]) and (fieldname in base(pp[0]) or "as_mut" in base(pp[0])):
+                    return True
+            return False
         for ptrf, cntf in (("next_in", "avail_in"), ("next_out", "avail_out")):
             a, b = src_of(d[ptrf]), src_of(d[cntf])
-            if not a or not b or a[0] != ptrf or b[0] != ptrf or a[1] != "ptr" or b[1] != "len" or not (is_const(b[2]) and const_val(b[2]) == 0):
-                good, why = False, "%s/%s are derived from %s / %s" % (ptrf, cntf, a, b)
+            if a or b:
+                if not a or not b or a[0] != ptrf or b[0] != ptrf or a[1] != "ptr" or b[1] != "len" or not (is_const(b[2]) and const_val(b[2]) == 0):
+                    good, why = False, "%s/%s are derived from %s / %s" % (ptrf, cntf, a, b)
+            elif not direct(d[ptrf], d[cntf], ptrf):
+                good, why = False, "%s/%s are %s / %s: not the pointer and length of the same slice (or NULL / 0)" % (ptrf, cntf, tstr(d[ptrf])[:60], tstr(d[cntf])[:60])
         for nm in ("total_in", "total_out"):
             v = d.get(nm)
             if not (v == ("field", P(1), nm) or (v and v[0] == "load" and v[1][0] == "fld" and v[1][2] == nm and v[1][1] == ("local", 0, 1))):
